@@ -23,7 +23,7 @@ RULE = (
     "StandardNormal / DiagonalNormal / ConditionalDiagonalNormal x event shapes {[1],[2],[3],[2,2]} x encoder {identity, linear} x patterns x context rows {1,2,3}: joint quadrature for "
     "<=2 coordinates, additivity on a 3^D grid + per-factor 1-D quadrature beyond; mean() vs first moment and documented shape; lattice push-forward of sample(); sample_and_log_prob(2, k rows) against log_prob row by row. "
     "ConditionalIndependentBernoulli: exact sum over {0,1}^n (n<=4), mean, rand-lattice frequencies. MADEMoG: features {1,2} x mixture sizes {1,2,3} x block types x context rows, quadrature + all sampler paths. "
-    "BoxUniform, MG1Uniform, LotkaVolterraOscillating: quadrature / factor-wise, samples inside the support. gaussian_kde_log_eval: N in {1,2,5}, D in {1,2}. "
+    "BoxUniform (vector boxes and matrix-/image-shaped boxes with all axes as one event), MG1Uniform, LotkaVolterraOscillating: quadrature / factor-wise, samples inside the support. gaussian_kde_log_eval: N in {1,2,5}, D in {1,2}. "
     "One case = one (object, context row) pair; non-trivial = parameters differ from the as-constructed ones or >=2 context rows."
 )
 ASSUMPTIONS = [
@@ -258,6 +258,24 @@ def bernoulli_case(cfg, pname, rows, seed):
         ex = (p[:, None] * allx.reshape(allx.shape[0], -1)).sum(0)
         if float((ex - mean[r].reshape(-1)).abs().max()) > 1e-12:
             out.append(("mean", "mean() differs from the expectation", "Bernoulli cfg=%s context row %d: mean() %s, expectation %s" % (cfg, r, mean[r].reshape(-1).tolist(), ex.tolist())))
+    # confident logits (contexts x60: probabilities within 1e-16 of 0 or 1): the pmf must stay a pmf -- finite log-probabilities, total one
+    for dt, tol in ((torch.float64, 1e-12), (torch.float32, 1e-5)):
+        try:
+            o = obj if dt == torch.float64 else DC.materialise(d, cfg, pname, seed, dtype=torch.float32)
+            big = (ctx * 60.0).to(dt)
+            for r in range(rows):
+                c = big[r : r + 1].expand(allx.shape[0], *big.shape[1:])
+                with torch.no_grad():
+                    lp = o.log_prob(allx.to(dt), context=c).double()
+                if not bool(torch.isfinite(lp).all()):
+                    out.append(("sum:confident", "non-finite log_prob", "Bernoulli cfg=%s %s context row %d x 60: log_prob over {0,1}^%d contains %s" % (cfg, str(dt)[6:], r, n, sorted(set(str(float(v)) for v in lp[~torch.isfinite(lp)]))[:3])))
+                    break
+                tot = float(torch.exp(lp).sum())
+                if abs(tot - 1) > tol:
+                    out.append(("sum:confident", "total probability differs from one", "Bernoulli cfg=%s %s context row %d x 60: sum over {0,1}^%d = %.15g" % (cfg, str(dt)[6:], r, n, tot)))
+                    break
+        except Exception as e:
+            out.append(("sum:confident", "log_prob raises %s" % type(e).__name__, "Bernoulli cfg=%s with contexts x 60: %s" % (cfg, str(e)[:100])))
     # sampling: uniform mid-quantile lattice -> frequency of ones within 1/M of p
     u = (torch.arange(M, dtype=torch.float64) + 0.5) / M
 
@@ -451,6 +469,9 @@ def prior_cases(tier):
     for dims in (1, 2, 3):
         for box in ([-1.0, 2.0], [0.0, 1.0], [2.0, 2.5]):
             out.append({"kind": "BoxUniform", "dims": dims, "box": box})
+    for shape in ([2, 2], [1, 3], [2, 1, 2]):
+        for box in ([-1.0, 2.0], [2.0, 2.5]):
+            out.append({"kind": "BoxUniformND", "shape": shape, "box": box})
     for box in ([0.0, 10.0], [1.0, 2.0]):
         out.append({"kind": "MG1Uniform", "box": box})
     out.append({"kind": "LotkaVolterraOscillating"})
@@ -483,6 +504,24 @@ def prior_case(case, tier):
         s = p.sample((8,))
         if tuple(s.shape) != (8, dims) or not bool(((s >= lo) & (s <= hi)).all()):
             out.append(("sample", "samples outside the support", "BoxUniform sample shape %s / range" % (tuple(s.shape),)))
+        return out
+    if k == "BoxUniformND":
+        # matrix- / image-shaped box: all axes reinterpreted as ONE event (reinterpreted_batch_ndims = number of axes)
+        shape, (lo, hi) = case["shape"], case["box"]
+        nd, vol = len(shape), int(np.prod(shape))
+        p = U.BoxUniform(low=lo * torch.ones(*shape, dtype=torch.float64), high=hi * torch.ones(*shape, dtype=torch.float64), reinterpreted_batch_ndims=nd)
+        pts = torch.full((3, *shape), 0.5 * (lo + hi), dtype=torch.float64) + 0.1 * (hi - lo) * pat_tensor((3, *shape), 2, 1.0)
+        lp = p.log_prob(pts)
+        if tuple(lp.shape) != (3,):
+            out.append(("log_prob", "not one value per point", "BoxUniform(shape %s, reinterpreted_batch_ndims=%d).log_prob of 3 points has shape %s" % (shape, nd, tuple(lp.shape))))
+            return out
+        if float((lp + vol * math.log(hi - lo)).abs().max()) > 1e-12:
+            out.append(("density", "total probability differs from one", "BoxUniform %s^%s: density %.9g, 1/volume %.9g" % (case["box"], shape, math.exp(float(lp[0])), (hi - lo) ** -vol)))
+        if tuple(p.event_shape) != tuple(shape):
+            out.append(("log_prob", "wrong event shape", "BoxUniform(shape %s, reinterpreted_batch_ndims=%d).event_shape = %s" % (shape, nd, tuple(p.event_shape))))
+        sm = p.sample((4,))
+        if tuple(sm.shape) != (4, *shape) or not bool(((sm >= lo) & (sm <= hi)).all()):
+            out.append(("sample", "samples outside the support", "BoxUniform(shape %s) sample shape %s / range" % (shape, tuple(sm.shape))))
         return out
     if k == "MG1Uniform":
         lo, hi = case["box"]
